@@ -257,6 +257,8 @@ def check(spec):
             import copy
             import pickle
             held = _CALLER_CONFIGS.get(id(ds))
+            if held is not None and held[0]() is not ds:
+                held = None  # a stale entry of a dead object whose id was reused (found as a flaky harness error in a thorough run)
             try:
                 new = copy.deepcopy(ds) if op[1] % 2 else pickle.loads(pickle.dumps(ds))
             except (pickle.PicklingError, AttributeError, TypeError) as e:
